@@ -157,6 +157,21 @@ pub fn inject(p: &Program, rng: &mut rand_chacha::ChaCha8Rng) -> Vec<Defect> {
         let body = Expr::Prim(4, vec![Expr::Call(names[0].clone(), vec![Expr::Lit(crate::val::V::int(3))], None), p.body.clone()]);
         out.push(Defect { kind: "inline-cycle", ident: names.join(","), program: Program { args: p.args.clone(), helpers: hs, body }, where_: format!("cycle{len}") });
     }
+    // 3b. the same two defects where only the branch a constant condition never takes can see them: an unbound name, and
+    //     a ring of inline functions called from there (strict dialects for the name, every dialect for the ring)
+    {
+        let one = Expr::Lit(crate::val::V::int(1));
+        let dead = |x: Expr, keep: Expr, cond_true: bool| if cond_true { Expr::If(Box::new(one.clone()), Box::new(keep), Box::new(x)) } else { Expr::If(Box::new(Expr::Lit(crate::val::V::nil())), Box::new(x), Box::new(keep)) };
+        for cond_true in [true, false] {
+            let body = dead(Expr::Prim(4, vec![Expr::Var("UNBOUND79".into()), one.clone()]), p.body.clone(), cond_true);
+            out.push(Defect { kind: "unbound", ident: "UNBOUND79".into(), program: Program { args: p.args.clone(), helpers: p.helpers.clone(), body }, where_: "dead-branch".into() });
+        }
+        let mut hs = p.helpers.clone();
+        hs.push(Helper::Defun { name: "dcyc0".into(), pat: Pat::list(vec![Pat::Var("CA".into())], Pat::Nil), body: Expr::Call("dcyc1".into(), vec![Expr::Var("CA".into())], None), inline: true });
+        hs.push(Helper::Defun { name: "dcyc1".into(), pat: Pat::list(vec![Pat::Var("CA".into())], Pat::Nil), body: Expr::Prim(4, vec![Expr::Var("CA".into()), Expr::Call("dcyc0".into(), vec![Expr::Var("CA".into())], None)]), inline: true });
+        let body = dead(Expr::Call("dcyc0".into(), vec![one.clone()], None), p.body.clone(), true);
+        out.push(Defect { kind: "inline-cycle", ident: "dcyc0,dcyc1".into(), program: Program { args: p.args.clone(), helpers: hs, body }, where_: "dead-branch".into() });
+    }
     // 4. assign with a dependency cycle / a repeated name
     {
         let cyc = Expr::Assign(vec![(Pat::Var("CYA".into()), Expr::Prim(16, vec![Expr::Var("CYB".into()), Expr::Lit(crate::val::V::int(1))])),
